@@ -27,6 +27,7 @@ ASSUMPTIONS = [
     'n_closest_channels = 2 and every probe listed has at least that many channels, or the selection is not examined',
     'float32 casts are identities; exact rational arithmetic',
     'forms added after seeding rounds: two exports of one model with different factors, a layout where L1 and Euclidean rankings differ, curated dataset without features (NaN depths are failed obligations), 8-bit probe table with raw ids up to 400',
+    'round 7: values of clusters.waveforms and clusters.amps for curated datasets (ids concretised per path): unwhitened cluster waveform of the model (C08) x mean stored amplitude x unit factor',
 ]
 STUBS = ['virtual file system', 'tqdm', 'np.random.choice (arbitrary subset)']
 OUTSIDE = ['float rounding', 'symbolic template values for the rescaled waveforms', 'sparse templates']
